@@ -1,6 +1,9 @@
 import OtelVerif.Common.Line
 import OtelVerif.Model.C14
-/-! driver for C14: models `c14-fmt` (fmt dispatch + marshalling paths) and `c14-enc` (config-map encoder) -/
+import OtelVerif.Model.C14Census
+import OtelVerif.Model.C14Exp
+/-! driver for C14: models `c14-fmt` (fmt dispatch + marshalling paths), `c14-enc` (config-map encoder) and
+`c14-builtin-all` (reflected opaque-typed fields of the built-in configuration types against the regenerated census) -/
 open OtelVerif OtelVerif.Line OtelVerif.C14 OtelVerif.Gen
 
 namespace OtelVerif.Drivers.C14
@@ -198,7 +201,74 @@ def encHandler : Handler ES where
     else if s.strs.all (fun x => !s.secrets.contains x) then ["prop nosecret=ok"]
     else ["prop nosecret=FAIL sig=C14/confmap/raw-secret-in-effective-config"]
 
+/-! ## census: the opaque-typed struct fields found by REFLECTION over the built-in configuration types against the
+regenerated go/ast census (`Gen/OpaqueCensus.lean`) -/
+
+structure CS where
+  seen : List (String × String × String) := []
+  fails : List String := []
+  fs : FS := {}
+  lastTree : Option GV := none
+  lastVerb : Nat := 0
+  notExp : Bool := false
+
+def censusHandler : Handler CS where
+  init := {}
+  onOp := fun s toks =>
+    match toks with
+    | "cfield" :: rest =>
+      match kv rest "pkg", kv rest "owner", kv rest "field" with
+      | some pkg, some owner, some field =>
+        match censusLookup pkg owner field with
+        | some f =>
+          let s := { s with seen := (pkg, owner, field) :: s.seen }
+          -- `OShape.safe` is the checker proved sound by `C14_safe_shape_values_plain`
+          let s := if f.shape.safe then s else { s with fails := s!"sig=C14/census/unsafe-shape/{pkg}.{owner}.{field} shape={f.shape.show}" :: s.fails }
+          (s, [s!"obs cfield shape={f.shape.show} key={if f.key.isEmpty then "-" else f.key} exp={if f.exported then 1 else 0} omit={if f.omitEmpty then 1 else 0}"])
+        | none =>
+          ({ s with fails := s!"sig=C14/census/reflected-field-not-in-census/{pkg}.{owner}.{field}" :: s.fails }, ["obs cfield missing"])
+      | _, _, _ => (s, ["obs bad-op"])
+    | "fmt" :: rest =>
+      -- a REAL built-in configuration value (reflected into the operand-tree notation): the same model `pa` as in `c14-fmt`
+      let (fs', outs) := fmtHandler.onOp s.fs toks
+      let (kvs, shape) := splitColon rest
+      let t := parseTree shape
+      let notExp := match t with | some v => !v.dyn.expIn | none => false
+      ({ s with fs := fs', lastTree := t, lastVerb := (kvNat kvs "verb").getD 0, notExp := s.notExp || notExp }, outs)
+    | ["census-done"] =>
+      -- exported census fields the reflection walk never reached: the built-in roots do not cover them
+      let un := OpaqueCensus.fields.filter (fun f => f.exported && !s.seen.contains (f.pkg, f.owner, f.field))
+      (s, ["obs unvisited " ++ (if un.isEmpty then "-" else ",".intercalate (un.map (fun f => s!"{f.pkg}.{f.owner}.{f.field}")))])
+    | _ => (s, ["obs bad-op"])
+  onObs := fun s toks =>
+    match toks, s.fs.lastOp with
+    | "obs" :: rest, "fmt" :: _ =>
+      if kvNat rest "dep" == some 1 then
+        match s.lastTree with
+        | some v =>
+          let c : FmtCtx := { verb := Char.ofNat s.lastVerb }
+          -- `C14_fmt_pointer_verbs_noninterference_real`: an exported-only tree under a pointer-safe verb must not depend on the
+          -- secrets — its own signature (the generic classifier would file it under the known nested-pointer finding)
+          let sg := if ptrSafeVerbs.contains c.verb then
+                      (if v.dyn.expIn then "C14/fmt/pointer-safe-verb-raw/builtin-config" else "C14/fmt/unexported-field-raw/builtin-config")
+                    else classify c v
+          { s with fails := s!"sig={sg} verb={c.verb}" :: s.fails }
+        | none => { s with fails := "sig=C14/fmt/unparsable" :: s.fails }
+      else s
+    | _, _ => s
+  onEnd := fun s =>
+    -- one line per distinct signature
+    let fs := s.fails.reverse
+    let sigs := (fs.map (fun f => (f.splitOn " ").headD "")).eraseDups
+    let outs := sigs.filterMap (fun sg => fs.find? (fun f => (f.splitOn " ").headD "" == sg))
+    let (cen, fm) := outs.partition (fun f => f.startsWith "sig=C14/census")
+    (if cen.isEmpty then ["prop census=ok"] else cen.map (fun f => s!"prop census=FAIL {f}")) ++
+    (if fm.isEmpty then ["prop builtin-fmt=ok"] else fm.map (fun f => s!"prop builtin-fmt=FAIL {f}")) ++
+    -- `GV.expIn` is the hypothesis of the pointer-safe-verb theorem: every built-in configuration value must satisfy it
+    (if s.notExp then ["prop builtin-tree=FAIL sig=C14/builtin/config-tree-not-exported-only"] else ["prop builtin-tree=ok"])
+
 end OtelVerif.Drivers.C14
 
 def main : IO UInt32 :=
-  runMulti [("c14-fmt", run OtelVerif.Drivers.C14.fmtHandler), ("c14-enc", run OtelVerif.Drivers.C14.encHandler)]
+  runMulti [("c14-fmt", run OtelVerif.Drivers.C14.fmtHandler), ("c14-enc", run OtelVerif.Drivers.C14.encHandler),
+    ("c14-builtin-all", run OtelVerif.Drivers.C14.censusHandler)]
